@@ -56,6 +56,7 @@ class FieldArrayModel(FieldCompositeModel):
         self._set_size(len(self.field_l))
         fm.is_declared_rand = self.is_declared_rand
         fm.rand_mode = self.is_declared_rand
+        fm.set_used_rand(self.is_used_rand, 1)
         self.name_elems()
         
     def clear(self):
@@ -86,7 +87,8 @@ class FieldArrayModel(FieldCompositeModel):
         # Set the size field for arrays that don't
         # have a random size
         if self.is_rand_sz:
-            self.size.set_used_rand(True)
+            # The size is random for the call only if the list is
+            self.size.set_used_rand(self.is_used_rand)
             # Number of elements and size the user sees before this call
             self.presolve_len = len(self.field_l)
             self.presolve_size = int(self.size.get_val())
@@ -122,6 +124,8 @@ class FieldArrayModel(FieldCompositeModel):
                 self.width,
                 self.is_signed,
                 self.is_declared_rand))
+        # An element added outside of a call is not in use by one
+        ret.set_used_rand(self.is_used_rand, 1)
         # Update the size
         self._set_size(len(self.field_l))
         return ret
